@@ -8,7 +8,7 @@ def run(ctx):
     life.mc(ctx, dict(base, MaxOps=4 if q else 5))
     behs = life.gen(ctx, dict(base, CB='{"c1"}', T='{"f"}'), 3 if q else 4, "all histories of the stub alphabet, 1 target")
     behs += life.gen(ctx, dict(base, CB='{"c1"}'), 2 if q else 3, "all histories of the stub alphabet, 2 targets")
-    behs += life.sim(ctx, dict(base, Ops="<- AllOps", RS="<- RS_3"), 250 if q else 4000, 10, "random histories, all ops")
+    behs += life.sim(ctx, dict(base, Ops="<- HeldOps", RS="<- RS_3"), 250 if q else 4000, 10, "random histories, all ops, kept handles")
     life.replay(ctx, "life", behs)
     # Pkg override applies to the next lookup only (spec/Pkg.tla)
     from lib.replay import replay_family
